@@ -555,3 +555,57 @@ def eko_basis_standin(rep):
         o.bounded = True
         rep.add(o)
 
+
+
+# ---------------------------------------------------------------------------------------
+# bounded companions on real runs
+REAL_GRID = [1e-3, 1e-2, 0.1, 0.3, 0.6, 1.0]
+
+
+def real_ops(th_over, ob_over, names, pts):
+    """Real run (real numpy / scipy / eko / LeProHQ, the runner's NaN clean-up included) on a 6-node
+    grid -> ({name: [orders dict per point]}, pids)."""
+    import warnings
+
+    import yadism
+
+    with warnings.catch_warnings():
+        warnings.simplefilter("ignore")
+        ob = base_obs(interpolation_xgrid=list(REAL_GRID), interpolation_polynomial_degree=2, observables={n: [dict(p) for p in pts] for n in names})
+        ob.update(ob_over)
+        out = yadism.run_yadism(base_theory(**th_over), ob)
+    return {n: [r.orders for r in out[n]] for n in names}, list(out["pids"])
+
+
+def ops_deviation(lhs, rhs, rowmap=None):
+    """max relative deviation between two lists (points) of order dicts; rowmap(values, pids-index
+    array) transforms the rows of rhs first."""
+    import numpy as np
+
+    worst, where = 0.0, None
+    for i, (a, b) in enumerate(zip(lhs, rhs)):
+        for k in sorted(set(a) | set(b)):
+            va = a[k][0] if k in a else 0.0
+            vb = b[k][0] if k in b else 0.0
+            if rowmap is not None and k in b:
+                vb = rowmap(vb)
+            scale = max(1e-12, float(np.max(np.abs(va))), float(np.max(np.abs(vb))))
+            d = float(np.max(np.abs(va - vb))) / scale
+            if d > worst:
+                worst, where = d, (i, k)
+    return worst, where
+
+
+def bounded_ob(rep, name, fn):
+    """Run fn() -> (worst, where); add a bounded obligation (never counted as discharged)."""
+    from pvc.core import ob_eval
+
+    rep.cases += 1
+    try:
+        worst, where = fn()
+        ok, detail = worst <= 1e-8, f"max relative deviation {worst:.2e} at (point, order) {where}"
+    except Exception as e:  # noqa
+        ok, detail = False, f"{type(e).__name__}: {e}"
+    o = ob_eval(name, ok, kind="bounded", detail=detail, inputs={} if ok else {"scenario": name, "observed": detail}, replay={"confirmed": True, "python": "the real run named in the obligation (contracts.harness.real_ops)"})
+    o.bounded = True
+    rep.add(o)
